@@ -11,7 +11,6 @@ Feature switches (names listed in ``avoid`` are switched off):
   neg_floor_mod      `//` and `%` with a possibly negative left operand
   pow_op             `**`
   andor_values       `and`/`or` on non-boolean operands used for their value
-  minmax_sideeffect  side-effecting call inside min()/max()/abs()
   float_abs_minmax   abs/min/max of floats
   str_lit_concat     "a" + "b"
   str_newline        newline inside a string literal
@@ -45,7 +44,6 @@ ALL_FEATURES = [
     "neg_floor_mod",
     "pow_op",
     "andor_values",
-    "minmax_sideeffect",
     "float_abs_minmax",
     "str_lit_concat",
     "str_newline",
@@ -176,18 +174,18 @@ class ProgGen:
         if kind == "mod":
             if self.feature("neg_floor_mod", 0.3) and not nonneg:
                 return f"({a()} % {r.randint(2, 9)})"
-            return f"(abs({self.int_expr(env, depth + 1, no_call=True)}) % {r.randint(2, 9)})"
+            return f"(abs({self.int_expr(env, depth + 1, no_call=not self.feature('double_eval', 0.2))}) % {r.randint(2, 9)})"
         if kind == "floordiv":
             if self.feature("neg_floor_mod", 0.3) and not nonneg:
                 return f"({a()} // {r.randint(2, 9)})"
             return f"(abs({self.int_expr(env, depth + 1, no_call=True)}) // {r.randint(2, 9)})"
         if kind == "minmax":
             fn = r.choice(["min", "max"])
-            inner_no_call = not self.feature("minmax_sideeffect", 0.3)
+            inner_no_call = not self.feature("double_eval", 0.3)
             args = [self.int_expr(env, depth + 1, no_call=inner_no_call or no_call) for _ in range(r.choice([2, 2, 3]))]
             return f"{fn}({', '.join(args)})"
         if kind == "abs":
-            return f"abs({self.int_expr(env, depth + 1, no_call=True)})"
+            return f"abs({self.int_expr(env, depth + 1, no_call=not self.feature('double_eval', 0.2))})"
         if kind == "cast" and self.opts.use_floats:
             return f"int({self.float_expr(env, depth + 1, no_call=no_call)})"
         if kind == "tern":
@@ -319,7 +317,8 @@ class ProgGen:
             return f"(not {self.bool_expr(env, depth + 1, no_call=no_call)})"
         if kind == "chain":
             o1, o2 = r.choice(["<", "<="]), r.choice(["<", "<="])
-            e = lambda: self.int_expr(env, depth + 1, no_call=True)  # noqa: E731
+            inner = not self.feature("double_eval", 0.2)
+            e = lambda: self.int_expr(env, depth + 1, no_call=inner)  # noqa: E731
             return f"({e()} {o1} {e()} {o2} {e()})"
         if kind == "streq" and self.opts.use_strings:
             v = self.pick_var(env, "str")
